@@ -7,7 +7,7 @@ CONSTANTS
   FmtTokens <- FTokQ
   MaxFmt <- NoFmt
   Heads <- HeadsAndEq
-  OptParts <- OptsRich
+  OptParts <- OptsMid
   MaxOpts = 3
   AllowNoFs = TRUE
   Setters <- NoneSet
